@@ -44,6 +44,7 @@ func c14Keys(c *Check) {
 		return
 	}
 	normalisers := map[string]bool{}
+	pc := newProv(p)
 	n := 0
 	for _, f := range p.MaddyFuncs() {
 		if f.Pkg == nil || f.Pkg.Pkg.Path() != pk.PkgPath {
@@ -76,26 +77,7 @@ func c14Keys(c *Check) {
 				n++
 				c.SawFunc(f.String())
 				name := f.Name() + ":" + m.Name()
-				msg := ""
-				ex, ok := key.(*ssa.Extract)
-				if !ok || ex.Index != 0 {
-					msg = "the table key is not the result of the normaliser: " + describeVal(key)
-				} else if call, ok := ex.Tuple.(*ssa.Call); !ok {
-					msg = "the table key is not the result of the normaliser"
-				} else {
-					fn := ssaCalleeName(&call.Call)
-					normalisers[fn] = true
-					// its string argument must be a parameter of the enclosing method
-					okArg := false
-					for _, a := range call.Call.Args {
-						if prm, isP := a.(*ssa.Parameter); isP && isStringType(prm.Type()) {
-							okArg = true
-						}
-					}
-					if !okArg {
-						msg = "the normaliser is not applied to the caller-supplied user name"
-					}
-				}
+				msg := c14JudgeKey(p, pc, key, normalisers, 0)
 				c.Hold("R1", name, ins.Pos(), msg == "", msg+" (account management and authentication would address different rows: a password changed through another spelling of the name leaves the old one valid)")
 			}
 		}
@@ -109,6 +91,38 @@ func c14Keys(c *Check) {
 	}
 	sort.Strings(ns)
 	c.Hold("R1", "pass_table:one-normaliser", token.NoPos, len(ns) == 1, "different operations normalise the user name with different functions: "+strings.Join(ns, ", "))
+}
+
+// c14JudgeKey: the key is the first result of a normaliser applied to a string parameter; a key that is itself a
+// parameter of an unexported helper is judged at every call site of that helper.
+func c14JudgeKey(p *Prog, pc *provCtx, key ssa.Value, normalisers map[string]bool, depth int) string {
+	if prm, isP := key.(*ssa.Parameter); isP && depth < 3 {
+		if bs := pc.paramBindings(prm); len(bs) > 0 {
+			for _, b := range bs {
+				if m := c14JudgeKey(p, pc, b.v, normalisers, depth+1); m != "" {
+					return m
+				}
+			}
+			return ""
+		}
+	}
+	ex, ok := key.(*ssa.Extract)
+	if !ok || ex.Index != 0 {
+		return "the table key is not the result of the normaliser: " + describeVal(key)
+	}
+	call, ok := ex.Tuple.(*ssa.Call)
+	if !ok {
+		return "the table key is not the result of the normaliser"
+	}
+	fn := ssaCalleeName(&call.Call)
+	normalisers[fn] = true
+	// its string argument must be a parameter of the enclosing method
+	for _, a := range call.Call.Args {
+		if prm, isP := a.(*ssa.Parameter); isP && isStringType(prm.Type()) {
+			return ""
+		}
+	}
+	return "the normaliser is not applied to the caller-supplied user name"
 }
 
 func typeIsIface(t types.Type, pkg string, names ...string) bool {
@@ -491,75 +505,23 @@ func c14Mapping(c *Check) {
 		return
 	}
 	ufaFn, apFn := p.SSAFunc(ufa.FI.Obj), p.SSAFunc(ap.FI.Obj)
+	pcBind = newProv(p)
 	mappedOnce := func(v ssa.Value) (int, bool) { // number of usernameForAuth applications on the way from a raw value; ok=false if unknown
-		n := 0
-		for depth := 0; depth < 8; depth++ {
-			switch x := v.(type) {
-			case *ssa.Extract:
-				if call, ok := x.Tuple.(*ssa.Call); ok && call.Call.StaticCallee() == ufaFn && x.Index == 0 {
-					n++
-					v = call.Call.Args[len(call.Call.Args)-1]
-					continue
-				}
-				return n, false
-			case *ssa.Parameter:
-				return n, true
-			case *ssa.UnOp:
-				// load of a captured/escaped cell: follow its stores (single)
-				if al, ok := x.X.(*ssa.Alloc); ok {
-					var vals []ssa.Value
-					for _, r := range *al.Referrers() {
-						if st, ok := r.(*ssa.Store); ok && st.Addr == ssa.Value(al) {
-							vals = append(vals, st.Val)
-						}
-					}
-					if len(vals) == 1 {
-						v = vals[0]
-						continue
-					}
-					// several stores: take the maximum over them
-					best, okAll := 0, true
-					for _, vv := range vals {
-						k, ok := mappedOnceRec(vv, ufaFn, 0)
-						if !ok {
-							okAll = false
-						}
-						if k > best {
-							best = k
-						}
-					}
-					return n + best, okAll
-				}
-				return n, false
-			case *ssa.Phi:
-				best, okAll := 0, true
-				for _, e := range x.Edges {
-					k, ok := mappedOnceRec(e, ufaFn, 0)
-					if !ok {
-						okAll = false
-					}
-					if k > best {
-						best = k
-					}
-				}
-				return n + best, okAll
-			default:
-				return n, false
-			}
-		}
-		return n, false
+		return mappedOnceRec(v, ufaFn, 0)
 	}
 	// (a) inside SASLAuth.AuthPlain: the provider receives usernameForAuth(param)
 	nProv := 0
-	for _, b := range apFn.Blocks {
-		for _, ins := range b.Instrs {
-			ci, ok := ins.(ssa.CallInstruction)
-			if !ok || !ci.Common().IsInvoke() || objName(ci.Common().Method) != "AuthPlain" {
-				continue
+	for _, cf := range p.ssaCone(apFn) {
+		for _, b := range cf.Blocks {
+			for _, ins := range b.Instrs {
+				ci, ok := ins.(ssa.CallInstruction)
+				if !ok || !ci.Common().IsInvoke() || objName(ci.Common().Method) != "AuthPlain" {
+					continue
+				}
+				nProv++
+				k, okk := mappedOnce(ci.Common().Args[0])
+				c.Hold("R4", "SASLAuth.AuthPlain:provider", ins.Pos(), okk && k == 1, "the credential provider receives a user name that passed the mapping "+itoa(k)+" time(s) (expected exactly once)")
 			}
-			nProv++
-			k, okk := mappedOnce(ci.Common().Args[0])
-			c.Hold("R4", "SASLAuth.AuthPlain:provider", ins.Pos(), okk && k == 1, "the credential provider receives a user name that passed the mapping "+itoa(k)+" time(s) (expected exactly once)")
 		}
 	}
 	if nProv == 0 {
@@ -613,7 +575,13 @@ func c14Mapping(c *Check) {
 	}
 	csFn := p.SSAFunc(cs.FI.Obj)
 	classes := map[string]string{}
-	for _, anon := range csFn.AnonFuncs {
+	var anons []*ssa.Function
+	for _, cf := range p.ssaCone(csFn) {
+		if cf.Parent() != nil {
+			anons = append(anons, cf)
+		}
+	}
+	for _, anon := range anons {
 		mech := "?"
 		switch len(anon.Params) {
 		case 3:
@@ -694,13 +662,48 @@ func c14Mapping(c *Check) {
 	c.Hold("R6", "CreateSASL:authz-identity", cs.FI.Decl.Pos(), okR6, "PLAIN authenticates although the authorization identity differs from the authentication identity (or the comparison is missing)")
 }
 
+// pcBind: parameter bindings for mappedOnceRec (set by c14Mapping)
+var pcBind *provCtx
+
 func mappedOnceRec(v ssa.Value, ufa *ssa.Function, depth int) (int, bool) {
 	if depth > 8 {
 		return 0, false
 	}
 	switch x := v.(type) {
 	case *ssa.Parameter:
+		// a parameter of a helper the reference tree did not have stands for the arguments at its call sites
+		if fo, isFn := x.Parent().Object().(*types.Func); isFn && pcBind != nil && pcBind.p.newHelpers[fo] {
+			if bs := pcBind.paramBindings(x); len(bs) > 0 {
+				best, okAll := 0, true
+				for _, b := range bs {
+					k, ok := mappedOnceRec(b.v, ufa, depth+1)
+					okAll = okAll && ok
+					if k > best {
+						best = k
+					}
+				}
+				return best, okAll
+			}
+		}
 		return 0, true
+	case *ssa.FreeVar:
+		// a captured variable of a function literal: the value bound where the literal is made
+		if fn := x.Parent(); fn != nil && fn.Parent() != nil {
+			idx := -1
+			for i, fv := range fn.FreeVars {
+				if fv == x {
+					idx = i
+				}
+			}
+			for _, b := range fn.Parent().Blocks {
+				for _, ins := range b.Instrs {
+					if mc, isMC := ins.(*ssa.MakeClosure); isMC && mc.Fn == ssa.Value(fn) && idx >= 0 && idx < len(mc.Bindings) {
+						return mappedOnceRec(mc.Bindings[idx], ufa, depth+1)
+					}
+				}
+			}
+		}
+		return 0, false
 	case *ssa.Extract:
 		if call, ok := x.Tuple.(*ssa.Call); ok && call.Call.StaticCallee() == ufa && x.Index == 0 {
 			k, ok := mappedOnceRec(call.Call.Args[len(call.Call.Args)-1], ufa, depth+1)
